@@ -35,7 +35,16 @@ VerdictMerge(r) ==
     [] r.merger = "concat" -> IF ~r.raised /\ r.out = r.a \o r.b THEN "ok" ELSE "concat-is-not-concatenation"
     [] r.merger = "unset" -> IF ~r.raised /\ r.out = r.a THEN "ok" ELSE "unset-field-overrode-a-set-one"
     [] OTHER -> "ok"
+\* kind "inst": [id, a, b (instances as data, projected from the real objects), raised, out (projection of merge(a, b)), aAfter, bAfter
+\*   (a and b projected again after the call), hasC, assocEq (merge(merge(a,b),c) and merge(a,merge(b,c)) agree: same instance or both refused)]
+VerdictInst(r) ==
+  LET want == MergeInst(r.a, r.b) IN
+  IF want.bad # r.raised THEN (IF r.raised THEN "merge-refused-without-two-values" ELSE "different-values-merged-silently")
+  ELSE IF NormI(r.aAfter) # NormI(r.a) \/ NormI(r.bAfter) # NormI(r.b) THEN "merge-changed-its-input"
+  ELSE IF ~r.raised /\ NormI(r.out) # NormI(want.v) THEN "merged-instance-differs"
+  ELSE IF r.hasC /\ ~r.assocEq THEN "merge-not-associative"
+  ELSE "ok"
 Init == i = 0
 Next == /\ i < Len(Recs) /\ i' = i + 1
-        /\ PrintT(<<"V", Recs[i + 1].id, IF Recs[i + 1].kind = "pair" THEN VerdictPair(Recs[i + 1]) ELSE VerdictMerge(Recs[i + 1])>>)
+        /\ PrintT(<<"V", Recs[i + 1].id, IF Recs[i + 1].kind = "pair" THEN VerdictPair(Recs[i + 1]) ELSE IF Recs[i + 1].kind = "inst" THEN VerdictInst(Recs[i + 1]) ELSE VerdictMerge(Recs[i + 1])>>)
 =============================================================================
